@@ -51,6 +51,11 @@ Response(r) ==
          [] r = "close" -> IF M.closable THEN "ok" ELSE "error"
          [] OTHER -> "error"
 
+\* Alternative answers the property equally allows: in the tool modes the body of a diff / merge request is not
+\* needed, so a malformed one may be answered from the start-up arguments (what nbdime does) or be refused.
+AltResponses(r) ==
+  IF running /\ ~ValidBody(r) /\ ((IsDiff(r) /\ M.tooldiff) \/ (IsMerge(r) /\ M.toolmerge)) THEN {"error"} ELSE {}
+
 Init == disk = Disk0 /\ running = TRUE /\ hist = <<>>
 
 Do(r) ==
@@ -58,7 +63,7 @@ Do(r) ==
              ELSE IF running /\ M.outfile /\ r = "store_7_extra" THEN [disk EXCEPT !["out.ipynb"] = 7]
              ELSE disk
   /\ running' = IF running /\ r = "close" /\ M.closable THEN FALSE ELSE running
-  /\ hist' = Append(hist, [req |-> r, resp |-> Response(r), disk |-> disk', running |-> running'])
+  /\ hist' = Append(hist, [req |-> r, resp |-> Response(r), alt |-> AltResponses(r), disk |-> disk', running |-> running'])
 
 Next == Len(hist) < MaxLen /\ \E r \in Requests : Do(r)
 Spec == Init /\ [][Next]_vars
@@ -85,5 +90,6 @@ AnswerIndependentOfHistory ==
 DiskJson(d) == [f \in Files |-> d[f]]
 Emit == (EMIT /\ Len(hist) = MaxLen) =>
   PrintT("SEQ " \o ToJson([k \in 1..Len(hist) |->
-            [req |-> hist[k].req, resp |-> hist[k].resp, disk |-> DiskJson(hist[k].disk), running |-> hist[k].running]]))
+            [req |-> hist[k].req, resp |-> hist[k].resp, alt |-> IF hist[k].alt = {} THEN <<>> ELSE <<"error">>,
+             disk |-> DiskJson(hist[k].disk), running |-> hist[k].running]]))
 =============================================================================
